@@ -79,7 +79,7 @@ static void op_rand(int argc, char **argv)
     for (int i = N - 1; i >= 0; i--) { mpz_mul_2exp(w, w, 32); mpz_add_ui(w, w, p->mt[i]); }
     out_zv(w); mpz_clear(w);
   }
-  static char b1[1 << 16], b2[1 << 16];
+  static __thread char b1[1 << 16], b2[1 << 16];
   if (argc < 10 + 3 * nc) { outs("SHORT-LINE"); nc = 0; }
   for (long i = 0; i < nc; i++) {
     int code = (int)arg_l(argv[10 + 3 * i]); const char *a = argv[11 + 3 * i], *b = argv[12 + 3 * i];
